@@ -337,6 +337,9 @@ func vnetRun(t *testing.T, sc vnetScenario, prop int, res *vnetResult) {
 			MaxStreamWriteBufferSize: sc.sw[s],
 			MaxConnReadBufferSize:    sc.cr[s],
 			QLogLogger:               slog.New(vnetLog{side: s, mu: &logMu, buf: &logBuf[s]}),
+			// PTO back-off under heavy loss may exceed the default idle timeout; the property is about
+			// delivery once traffic gets through, so idle expiry is taken out of the picture.
+			MaxIdleTimeout:  6 * time.Hour,
 		}
 		var lc *Config
 		if s == 1 {
@@ -449,8 +452,8 @@ func vnetRun(t *testing.T, sc vnetScenario, prop int, res *vnetResult) {
 			return false
 		}
 		d := time.Until(next)
-		if d > 20*time.Second {
-			return false // only idle / keep-alive timers left
+		if d > time.Hour {
+			return false // only the idle timer is left
 		}
 		if d > 0 {
 			time.Sleep(d)
@@ -557,7 +560,7 @@ func vnetRun(t *testing.T, sc vnetScenario, prop int, res *vnetResult) {
 	ctxErr := canceledContext().Err()
 	allDone := func() bool {
 		for _, st := range sts {
-			if !st.wdone || !st.rdone {
+			if !st.wdone || !st.rdone || (!st.plan.uni && !st.revDone) {
 				return false
 			}
 		}
